@@ -29,6 +29,7 @@ func init() {
 	Register("C13", &Scenario{Name: "constructor-fault-enumeration", Directed: len(c13Cases), Run: func(c *Ctx, v int) { runC13Enum(c, v) }})
 	Register("C13", &Scenario{Name: "repeated-close", Weight: 6, Directed: len(c13CloseKinds), Run: func(c *Ctx, v int) { runC13Close(c, v) }})
 	Register("C13", &Scenario{Name: "gc-while-in-flight", Weight: 4, Directed: 8, Run: func(c *Ctx, v int) { runC13GC(c, v) }})
+	Register("C13", &Scenario{Name: "close-in-flight-deregistration-fails", Weight: 1, Directed: 12, Run: func(c *Ctx, v int) { runC13CloseInFlight(c, v) }})
 	Register("C13", &Scenario{Name: "gc-after-reconnect-from-handler", Weight: 2, Directed: 2, Run: func(c *Ctx, v int) { runC13Reconnect(c, v) }})
 }
 
@@ -930,5 +931,81 @@ func runC13GC(c *Ctx, v int) {
 	}
 	if write && wrDone != 1 {
 		c.Failf("completion-not-delivered/write", "the deferred write completed %d times after the collection", wrDone)
+	}
+}
+
+// ---------------------------------------------------------------------------
+// Close with operations in flight while the deregistration fails
+
+var c13pCloseCtlFail = sim.RegStat("probe:c13-close-with-operations-in-flight-and-failing-epoll_ctl")
+
+// runC13CloseInFlight: a connection is closed while a read and/or a write is registered with the poller, and the
+// deregistration that Close performs fails - the kernel refuses one epoll_ctl (ENOMEM), or the program tears down in
+// the order IO first, connection second (EBADF on the epoll descriptor). Whatever Close returns, the connection's
+// descriptor is released: "Close releases exactly the descriptors the object owns".
+func runC13CloseInFlight(c *Ctx, v int) {
+	w := c.W
+	w.TCPSndCap = 4096
+	mode := v
+	if v < 0 {
+		mode = w.Choose(12)
+	}
+	read, write, how := mode%4&1 != 0, mode%4&2 != 0, (mode/4)%3
+	base := w.K.OpenCount()
+	ioc, err := sonic.NewIO()
+	if err != nil {
+		sim.Bug("NewIO: %v", err)
+	}
+	iocOpen := true
+	defer func() {
+		if iocOpen {
+			ioc.Close()
+		}
+	}()
+	port := 9700
+	al := w.K.ActorListen(loopIP, port, sim.ConnAccept)
+	defer al.Close()
+	cn, err := sonic.Dial(ioc, "tcp", fmt.Sprintf("127.0.0.1:%d", port))
+	if err != nil {
+		sim.Bug("Dial: %v", err)
+	}
+	var rdDone, wrDone int
+	if read {
+		cn.AsyncRead(make([]byte, 64), func(err error, n int) { rdDone++ })
+	}
+	if write {
+		cn.AsyncWriteAll(make([]byte, 1<<16), func(err error, n int) { wrDone++ })
+	}
+	if read && rdDone != 0 || write && wrDone != 0 {
+		sim.Bug("c13: the operation was meant to be deferred")
+	}
+	what := "no failure"
+	switch how {
+	case 1:
+		k := 1 + w.Choose(2)
+		w.FailNth(sim.CkEpollCtl, k, syscall.ENOMEM)
+		what = fmt.Sprintf("epoll_ctl call %d of Close failing with ENOMEM", k)
+	case 2:
+		ioc.Close()
+		iocOpen = false
+		what = "the IO closed before the connection"
+	}
+	if how != 0 && (read || write) {
+		w.Stat(c13pCloseCtlFail)
+	}
+	cerr := cn.Close()
+	w.FailNth(sim.CkEpollCtl, 0, 0)
+	if how == 0 && cerr != nil {
+		c.Failf("first-close-failed/conn-with-operations-in-flight", "Close of a connection with read=%v write=%v in flight failed: %v", read, write, cerr)
+	}
+	if iocOpen {
+		ioc.Close()
+		iocOpen = false
+	}
+	if n := w.K.OpenCount(); n != base {
+		c.Failf("close-did-not-release/conn-with-operations-in-flight", "a connection with read=%v write=%v registered with the poller was closed with %s; Close returned %v and %d descriptor(s) are still open after the IO was closed too", read, write, what, cerr, n-base)
+	}
+	if rdDone+wrDone != 0 && how == 0 {
+		c.Failf("callback-after-close/conn", "Close ran %d read and %d write completion(s) of the operations it abandons", rdDone, wrDone)
 	}
 }
